@@ -95,7 +95,7 @@ UNIT = {
          'key': 'types::Value::type_of',
          'props': ['C16'], 'auto_props': ['C16', 'C05'],
          'ret': 'r',
-         'attrs': '#[verifier::exec_allows_no_decreases_clause]',
+         'decreases': '*self',
          'ensures': [('post_type_rel', 'type_rel(*self, r)')],
          'body_prefix': '''broadcast use vstd::std_specs::btree::group_btree_axioms;
 proof {
@@ -127,7 +127,7 @@ proof {
                      ('done_keys', 'forall |j: int| 0 <= j < it.index@ ==> entries@.contains_key(*(#[trigger] it.seq()[j]).0)'),
                      ('entries_ok', 'forall |k: Name| #[trigger] entries@.contains_key(k) ==> context.0@.contains_key(k) && type_rel(context.0@[k], entries@[k])'),
                  ],
-                 'body_prefix': 'proof {\n  axiom_name_key();\n  assert(context.0@.contains_key(*name) && context.0@[*name] == *value);\n}',
+                 'body_prefix': 'proof {\n  axiom_name_key();\n  assert(context.0@.contains_key(*name) && context.0@[*name] == *value);\n  assert(decreases_to!(*self => self->Context_0)); assert(decreases_to!(*context => context.0)); assert(decreases_to!(context.0 => context.0@[*name])); assert(decreases_to!(*self => *value));\n}',
              },
              1: {
                  'iter_name': 'it',
@@ -143,6 +143,8 @@ proof {
          'splices': [
              {'id': 'range_hint', 'op': 'before', 'anchor': 'if range_start_type == range_end_type {',
               'text': 'proof {\n  assert(wit(range_start_type));\n  lemma_equiv_refl(range_start_type);\n  if equiv(range_start_type, range_end_type) { lemma_equiv_sym(range_start_type, range_end_type); lemma_type_rel_closed(**range_end, range_end_type, range_start_type); }\n  if type_rel(**range_end, range_start_type) { lemma_type_rel_functional(**range_end, range_start_type, range_end_type); }\n}'},
+             {'id': 'first_item_is_smaller', 'op': 'before', 'anchor': 'let item_type = values.as_vec()[0].type_of();',
+              'text': 'proof { vstd::std_specs::vec::axiom_vec_index_decreases(values.0, 0); assert(decreases_to!(*self => self->List_0)); assert(decreases_to!(*values => values.0)); assert(decreases_to!(*self => values.0@[0])); }'},
              {'id': 'list_all_hint', 'op': 'before', 'anchor': 'FeelType::List(Box::new(item_type))',
               'text': 'proof { assert(wit(item_type)); lemma_equiv_refl(item_type); }'},
          ],
@@ -171,7 +173,7 @@ NOT_DECIDED = {
     'C11': ['output side: FeelType::coerced itself is decided here (wrap into / unwrap from a singleton list, null otherwise); where it is applied to decision / BKM / decision service results is not'],
     'C16': [
         'where coercion is applied during function invocation / decision output (closure wiring in feel-evaluator builders and model-evaluator)',
-        'termination of is_conformant and Value::type_of (exec_allows_no_decreases_clause)',
+        'termination of is_conformant (its parameter loop calls itself with self and other SWAPPED, so neither argument alone decreases; exec_allows_no_decreases_clause)',
         'get_value_checked / get_conformant_value (not part of the property)',
     ],
     'C05': [
